@@ -2,6 +2,8 @@ import WhVerif.Util.Proto
 import WhVerif.Spec.C02Raw
 import WhVerif.Model.C02Bam
 import WhVerif.Driver.C01
+import WhVerif.Driver.C06
+import WhVerif.Model.C02Stage
 namespace WhVerif.Driver.C02
 open Lean WhVerif.Proto WhVerif.C01 WhVerif.C02
 
@@ -27,6 +29,39 @@ def bamFile? (j : Json) : Option WhVerif.C02Bam.BamFile := do
 def bool? : Json → Option Bool
   | Json.bool b => some b
   | _ => none
+
+def ofPRead (r : WhVerif.C06.ReadOut) : Json :=
+  Json.arr #[ofNat r.sourceId, Json.str r.name, ofList (fun (v : Nat × Nat × Int) => Json.arr #[ofNat v.1, ofNat v.2.1, ofInt v.2.2]) r.variants]
+
+def rankKey? (j : Json) : Option (Nat × String) := do
+  match ← asArr? j with
+  | [a, b] => some (← asNat? a, ← asStr? b)
+  | _ => none
+
+/-- `c02.pipeline {"cfg", "sources", "sample", "variants", "reference", "asis"` as for `c06.read`, `"cap": n, "order": [[source id, name]…],
+    "sel": [indices]|null}`: the composed stage model `C02S.samplePipeline` (C06 reader → `ReadSet::sort` with the hash order taken
+    from "order" → `len >= 2` filter → C07 selection with the first tie choices → `accessible_positions`); with "sel" also the solver
+    input for THAT selection of the model's candidates (`selectReads`, `defaultPositions`) -/
+def handlePipeline (j : Json) : Json :=
+  match WhVerif.Driver.C06.readCfg? j, WhVerif.Driver.C06.sources? j, WhVerif.Driver.C06.optStr? j "sample",
+        WhVerif.Driver.C06.getVariants? j "variants", WhVerif.Driver.C06.optStr? j "reference", getNat? j "cap",
+        (getList? j "order").bind (·.mapM rankKey?) with
+  | some cfg, some srcs, some sample, some vs, some rf, some cap, some order =>
+    let rank : WhVerif.C06.ReadOut → Nat := fun r => (order.findIdx? (fun k => k.1 == r.sourceId && k.2 == r.name)).getD order.length
+    match WhVerif.C02S.samplePipeline cfg srcs sample vs (rf.map String.toList) rank cap [] [] with
+    | .error (.read e) => Json.mkObj [("err", WhVerif.Driver.C06.rerrJson e)]
+    | .error (.stage _) => Json.mkObj [("err", Json.str "stage")]
+    | .ok out =>
+      let base := [("err", Json.null), ("reads", ofList ofPRead out.reads), ("cands", ofList ofPRead out.stage.cands),
+                   ("sel", ofNatList out.stage.selIdx), ("positions", ofNatList out.positions)]
+      let withSel := match getNatList? j "sel" with
+        | some sel =>
+          let raws := selectReads (out.stage.cands.map WhVerif.C02S.toRaw) sel
+          base ++ [("sel_reads", ofList (fun (r : RawRead) => ofList (fun v => ofNatList [v.1, v.2.1, v.2.2]) r.variants) raws),
+                   ("sel_positions", ofNatList (defaultPositions raws))]
+        | none => base
+      Json.mkObj withSel
+  | _, _, _, _, _, _, _ => badInput
 
 /-- ops of property C02 are named `c02.<name>`; return `none` for ops that are not ours.
     `c02.errfree {"raw": R, "truth": [[pos, allele on haplotype 0]…], "src": [true = haplotype 1, …]}`: the precondition of the
@@ -58,6 +93,7 @@ def handle (op : String) (j : Json) : Option Json :=
           ("variants", ofList (fun v => ofNatList [v.1, v.2.1, v.2.2]) r.variants)]) (selectReads R.reads sel))
       | none => some badInput
     | _, _ => some badInput
+  else if op == "c02.pipeline" then some (handlePipeline j)
   else if op == "c02.fetch" then
     -- {"files": [{"rgs": [[id, SM|null]…], "alns": [[name, RG tag]…]}…], "sample": s}: the reads taken for the sample as
     -- {"reads": [[source_id, name]…]} (`Model/C02Bam.fetch`), {"reads": null} = SampleNotFoundError
